@@ -50,6 +50,29 @@ def validate_current(P, ctx, T, rule):
     return ok
 
 
+def exit_descriptor(g, node, N=None):
+    """structural name of a normal exit: the branch conditions that lead directly to it
+    (`return@<cond>=T|...`), or `end` for the fall-off end reached unconditionally"""
+    if node['kind'] == 'exit':
+        return 'end'
+    conds = []
+    seen = set()
+    stack = [(p, l) for (p, l) in node['pred']]
+    while stack:
+        p, l = stack.pop()
+        if (p, l) in seen:
+            continue
+        seen.add((p, l))
+        pn = g.nodes[p]
+        if pn['kind'] == 'cond':
+            conds.append('%s=%s' % (ir.fmt(N.canon(pn['expr']) if N else ir.canon(pn['expr'])), 'T' if l else 'F'))
+        elif pn['kind'] == 'join':
+            stack.extend(pn['pred'])
+    if not conds:
+        return 'return-after(%s)' % (ir.fmt(ir.canon(g.nodes[node['pred'][0][0]]['expr']))[:40] if node['pred'] and g.nodes[node['pred'][0][0]]['expr'] is not None else 'entry')
+    return 'return@' + '|'.join(sorted(conds))
+
+
 class Fin:
     """does every normal exit of f finalise (dealloc(destruct(p))) its pointer parameter exactly once?"""
 
@@ -167,7 +190,7 @@ class Fin:
             if end[0] == 'term':
                 continue   # raising exits are not normal exits
             last = end[2]
-            rid = ('return#%d' % (rets.index(last['id']) + 1)) if last['kind'] == 'ret' else 'end'
+            rid = exit_descriptor(g, last, util.Norm(P, fn, inline=False))
             cls = '%s:%s%s' % (fname, rid, ':pending-entry-struck' if struck else '')
             c = classes.setdefault(cls, {'n': 0, 'bad': None, 'twice': None, 'line': last['line'], 'delegated': 0})
             c['n'] += 1
@@ -317,6 +340,58 @@ def check_sweep(P, ctx):
                 ok = ok and g.must_pass(conds[0]['id'], [n['id'] for n in g.live() if n['kind'] == 'cond' and
                                                          N.canon(n['expr']) == ir.canon(('bin', '<', ('local', 'i'), ('arrow', ('param', 0), 'nslots')))][:1] or [g.entry])
     ctx.check(ok, rule, 'GC_Sweep:finalise-pending', site(fn), 'the final loop visits freelist[0..freenum) in steps of one and finalises every non-null entry with dealloc(destruct(.))')
+    # (5) compaction: after an entry is removed and the cluster behind it shifted back, the same slot is
+    # examined again (the scan index is not advanced on the removing path)
+    if len(appends) == 1:
+        an = appends[0][0]
+        scan_conds = [n for n in g.live() if n['kind'] == 'cond' and any(x[0] in ('arrow', 'dot') and x[2] == 'nslots' for x in ir.walk(n['expr'])) and
+                      an['id'] in g.reach_from(n['id']) and n['id'] in g.reach_from(an['id'])]
+        ok5 = len(scan_conds) == 1
+        if ok5:
+            raw = ir.nocast(appends[0][0]['expr'])
+            idxv = [x for x in ir.walk(raw) if x[0] == 'idx' and util.mentions_field(x[1], 'entries')]
+            iv = ir.top_nocast(idxv[0][2]) if idxv else None
+            between = g.reach_from(an['id'], cut_nodes=[scan_conds[0]['id']])
+            adv = []
+            for i in between:
+                x = g.nodes[i]
+                if x['expr'] is None:
+                    continue
+                for ev in util.expr_events(x['expr'], x):
+                    if ev['t'] == 'write' and iv is not None and ir.top_nocast(ev['lhs']) == iv:
+                        adv.append(x)
+            ok5 = iv is not None and iv[0] == 'local' and not adv
+        ctx.check(ok5, rule, 'GC_Sweep:rescan-after-removal', site(fn, an['line']),
+                  'removing an entry shifts the following cluster back into the same slot, so the scan must look at that slot again before advancing; '
+                  'otherwise the entry that moved in is neither reclaimed nor kept for a later sweep (left behind at teardown)',
+                  ['scan index advanced at: %s' % g.describe(adv[0])] if ok5 is False and 'adv' in dir() and adv else None)
+    # (6) pending-list protocol between the sweep and a re-entrant del: an entry that is still visible on the
+    # pending list must not be finalised by both sides
+    rp = P.fn('GC_Rem_Ptr')
+    gr = P.cfg(rp)
+    both = False
+    for path in gr.paths():
+        struck = fin = False
+        for ev in util.path_events(path):
+            if ev['t'] == 'write' and ir.top_nocast(ev['lhs'])[0] == 'idx' and util.mentions_field(ev['lhs'], 'freelist'):
+                struck = True
+            if ev['t'] == 'call' and ev['name'] == 'dealloc' and struck:
+                # finalised on a path that found the pointer on the pending list, before looking it up in the registry
+                pre_lookup = not any(e2['t'] == 'call' and e2['name'] in ('GC_Hash',) for e2 in util.path_events(path)[:util.path_events(path).index(ev)])
+                if pre_lookup:
+                    fin = True
+        if struck and fin:
+            both = True
+    cleared_first = False
+    if len(fins) == 1:
+        fnode, ev = fins[0]
+        # does the sweep clear freelist[i] before finalising it?
+        clr = [n for n in g.live() if n['expr'] is not None and any(e2['t'] == 'write' and ir.top_nocast(e2['lhs'])[0] == 'idx' and util.mentions_field(e2['lhs'], 'freelist')
+                                                                   and e2['rhs'] is not None and ir.is_null(e2['rhs']) for e2 in util.expr_events(n['expr'], n))]
+        cleared_first = any(g.must_pass(fnode['id'], [c['id']]) and fnode['id'] in g.reach_from(c['id']) for c in clr)
+    ctx.check((not both) or cleared_first, rule, 'pending-list-protocol', site(rp),
+              'a deletion that finds its pointer on the sweep\'s pending list may finalise it itself only if the sweep clears each pending entry before '
+              'finalising it; otherwise an object swept before its owner is finalised by the sweep and again by the owner\'s destructor')
     # (4) the list is sized for all entries and released afterwards
     re = [c for n in g.live() if n['expr'] is not None for c in ir.calls(n['expr']) if ir.callee_name(c) == 'realloc']
     ok = len(re) == 1 and N.canon(re[0][2][0]) == ('arrow', ('param', 0), 'freelist')
@@ -325,7 +400,7 @@ def check_sweep(P, ctx):
         sz = poly.from_expr(N.canon(re[0][2][1]))
         ok = sz == poly.Poly.const(8) * poly.Poly.atom('arg0->nitems')
     ctx.check(ok, rule, 'GC_Sweep:pending-capacity', site(fn), 'the pending list has room for every registered entry (sizeof(var) * nitems)')
-    ctx.floor(rule, 4)
+    ctx.floor(rule, 6)
 
 
 def check_teardown(P, ctx):
